@@ -20,7 +20,15 @@ PROPERTY = "C07"
 
 
 def reset(sx):
-    pass
+    """every path starts with this harness' default environment: env.llcp's
+    Condition for the LLCP modules (the blocked-application family switches to
+    env.coop for its own paths), the real threading for the server modules"""
+    import threading
+    import nfc.snep.server
+    import nfc.handover.server
+    envl.install()
+    nfc.snep.server.threading = threading
+    nfc.handover.server.threading = threading
 
 
 def choose(sx, name, v):
@@ -746,10 +754,23 @@ class NdefChoice(object):
 
     def __init__(self, sx, outcomes):
         self.sx, self.outcomes, self.k = sx, outcomes, 0
+        self.memo = {}
 
-    def message_decoder(self, octets, *args, **kwargs):
-        self.k += 1
-        what = self.sx.pick("ndef.decode#%d" % self.k, self.outcomes)
+    def message_decoder(self, octets, errors='strict', *args, **kwargs):
+        """no octets: no records and no error (as ndeflib); otherwise the
+        outcome is drawn once per (length, mode); what decodes in strict mode
+        decodes to the same records in relax mode"""
+        n = len(octets)
+        if n == 0:
+            return []
+        if (n, 'strict') in self.memo and self.memo[(n, 'strict')] != "DecodeError":
+            what = self.memo[(n, 'strict')]
+        elif (n, errors) in self.memo:
+            what = self.memo[(n, errors)]
+        else:
+            self.k += 1
+            what = self.sx.pick("ndef.decode#%d" % self.k, self.outcomes)
+            self.memo[(n, errors)] = what
         if what == "DecodeError":
             raise real_ndef.DecodeError("malformed")
         return [Rec(what)]
@@ -870,6 +891,167 @@ def handover_serve(sx, lens, miu_s2c):
     sx.check(link.nclose['s'] == 1, "socket-not-closed:handover.server.serve")
     sx.reach("handover:server-returned")
     return [len(m) for m in link.sent['s']]
+
+
+def handover_client(sx, op, lens, end):
+    """HandoverClient.recv_octets / recv_records with a server that answers
+    with arbitrary fragments (zero-length ones included)"""
+    import nfc.handover.client
+    nfc.handover.client.ndef = NdefChoice(sx, ["urn:nfc:wkt:Hs", "other", "DecodeError"])
+    link, conn, cs = socket_world(sx, 128, 128)
+    lens = choose(sx, "lens", lens) if lens and isinstance(lens[0], list) else lens
+    frags = [sx.bytes("m%d" % i, n) for i, n in enumerate(lens)]
+
+    def peer():
+        conn.recv()
+        for f in frags:
+            conn.send(f)
+        if end == "silent":
+            while conn.recv() is not None:
+                pass
+        conn.close()
+    link.start_server(peer)
+    client = nfc.handover.client.HandoverClient(FakeLLC(link, 'c'))
+    allowed = (nfc.llcp.Error,)
+    res = []
+
+    def body():
+        client.connect()
+        client.send_octets(b"\xd0\x00\x00")
+        fn = client.recv_octets if op == "octets" else client.recv_records
+        res.append(guarded(sx, "handover.client.recv_" + op, allowed, fn, 0.5))
+        client.close()
+        link.finish()
+    drive(sx, "handover.client", link, body)
+    st, r = res[0]
+    sx.reach("handover:client-" + ("returned" if st == 'ok' else "error"))
+    return [st, r if st == 'exc' else (None if r is None else len(r))]
+
+
+# ----------------------------------------------------------------------------
+# (7) application calls parked by peer-controlled state: the PDU of the peer
+#     that ends the condition must wake the call (env.coop, read-only use)
+# ----------------------------------------------------------------------------
+from env import coop
+
+APP_PEER, APP_ADDR = 21, 36
+
+
+class NoPreemption(object):
+    """what env.coop's scheduler asks at its optional preemption points: never
+    preempt.  Link steps then run exactly where the application call sleeps
+    in a wait() without time-out (env.coop forces them there), in script
+    order: the schedules in which the peer's PDU arrives while the call is
+    asleep.  (PDUs that arrive before the call starts are C05 / C09.)"""
+
+    def flag(self, name):
+        return False
+
+
+def coop_world(sx, rw):
+    """a link controller whose locks / conditions are env.coop's, an
+    ESTABLISHED data link connection (accepted from APP_PEER, remote receive
+    window rw), a listening socket and an unconnected one"""
+    coop.install()
+    S = coop.new_sched(NoPreemption())
+    llc = llcmod.LogicalLinkController(sec=False)
+    llc.cfg['send-miu'], llc.cfg['recv-lto'] = 128, 100
+    llc.cfg['llcp-dpc'], llc.cfg['send-wks'] = 0, 1
+    llc.link.ESTABLISHED = True
+    lst = llc.socket(DLC)
+    llc.bind(lst, APP_ADDR)
+    llc.listen(lst, 1)
+    llc.dispatch(pdu.Connect(APP_ADDR, APP_PEER, 128, rw))
+    dlc = llc.accept(lst)
+    assert dlc.state.ESTABLISHED and dlc.send_win == rw
+    out = llc.socket(DLC)
+    llc.bind(out, APP_ADDR + 1)
+    for i in range(4):
+        llc.collect()           # the CC has left
+    return S, llc, lst, dlc, out
+
+
+def link_step(sx, llc, name, sock_addr, peer):
+    """one iteration of the link thread's loop: the peer's PDU (SYMM: none) is
+    dispatched, then what is to be sent is collected (twice: aggregation may
+    need a second turn)"""
+    def make():
+        if name == "SYMM":
+            return None
+        if name == "DISC":
+            return pdu.Disconnect(sock_addr, peer)
+        if name == "DM":
+            return pdu.DisconnectedMode(sock_addr, peer, sx.byte("dm.reason"))
+        if name == "FRMR":
+            return pdu.FrameReject(sock_addr, peer, flags=1, ptype=12)
+        if name == "CC":
+            return pdu.ConnectionComplete(sock_addr, peer, 128, 1)
+        if name.startswith("RR:"):
+            return pdu.ReceiveReady(sock_addr, peer, int(name[3:]))
+        raise ValueError(name)
+
+    def step():
+        p = make()
+        if p is not None:
+            llc.dispatch(pdu.decode(pdu.encode(p)))
+        llc.collect()
+        llc.collect()
+    return (name, step)
+
+
+def app_blocked(sx, call, enders):
+    """`call` sleeps because of state the peer controls; then the peer sends
+    `ender` and keeps the link up with SYMM.  The call must come back (value
+    or nfc.llcp.Error) when the ender ends the condition it waits for; with
+    the control enders ('SYMM': nothing happens) it must stay asleep."""
+    ender = choose(sx, "ender", enders)
+    rw = sx.pick("rw", [1, 2]) if call == "send" else 1
+    S, llc, lst, dlc, out = coop_world(sx, rw)
+    entry = "app.%s:after-%s" % (call, ender.split(":")[0])
+    if call == "send":
+        for i in range(rw):     # the remote receive window is used up
+            assert llc.send(dlc, b"m%d" % i, nfc.llcp.MSG_DONTWAIT) is True
+        for i in range(rw + 1):
+            llc.collect()
+        assert dlc.send_window_slots == 0
+        fn = lambda: llc.send(dlc, b"next", 0)
+        sock, peer = APP_ADDR, APP_PEER
+    elif call == "recv":
+        fn = lambda: llc.recv(dlc)
+        sock, peer = APP_ADDR, APP_PEER
+    elif call == "accept":
+        fn = lambda: llc.accept(lst)
+        sock, peer = APP_ADDR, APP_PEER
+    else:
+        fn = lambda: llc.connect(out, 17)
+        sock, peer = APP_ADDR + 1, 17
+    S.steps = [link_step(sx, llc, n, sock, peer) for n in (ender, "SYMM", "SYMM", "SYMM")]
+    left = None
+    try:
+        st, r = guarded(sx, entry, (nfc.llcp.Error,), S.app_call, fn)
+    except coop.LeftWaiting as e:
+        left = e.site
+    except coop.LinkBlocked as e:
+        sx.check(False, "link-thread-blocked@%s[%s]" % (e.site, entry))
+    except coop.CoopDeadlock as e:
+        sx.check(False, "deadlock@%s[%s]" % (e.site, entry))
+    except coop.Livelock as e:
+        sx.check(False, "endless-wait@%s[%s]" % (e.site, entry))
+    except coop.Unrepresentable:
+        sx.assume(False, "a link step that would wait for a lock of the application "
+                  "thread is not a schedule of env.coop (link steps are atomic)")
+    ends_wait = not (ender == "SYMM" or (call == "accept"))
+    if left is not None:
+        # the script is exhausted and nothing notified the condition the call
+        # sleeps on: with a peer that keeps sending SYMM it sleeps for ever
+        if ends_wait:
+            sx.check(False, "left-waiting@%s[%s]" % (left, entry))
+        sx.reach("app:still-asleep-as-expected")
+        return "asleep"
+    if not ends_wait:
+        sx.check(False, "came-back-without-cause[%s]" % entry)
+    sx.reach("app:came-back")
+    return [st, r if st == 'exc' or r is None or isinstance(r, bool) else "value"]
 
 
 # ----------------------------------------------------------------------------
@@ -1211,13 +1393,15 @@ def partitions(tier):
     for depth in (2, 60, 543):
         add("llc-nested:%d" % depth, "llc_run_nested", role="Target", depth=depth)
     # (5) snep / handover
-    SL = [[0], [1], [5], [6], [7], [9], [10], [11], [6, 0], [6, 1], [6, 3], [10, 2], [6, 2, 2]]
+    SL = [[0], [1], [5], [6], [7], [9], [10], [11], [6, 0], [6, 1], [6, 3], [10, 2], [6, 2, 2],
+          [0, 6], [6, 0, 2], [10, 0], [10, 0, 6]]
     if not quick:
         SL += [[12], [14], [6, 6], [8, 1, 1], [6, 0, 2], [10, 4, 1]]
     for i, group in enumerate(chunks(SL, 4)):
         for miu, ml in ((128, "big"), (6, "sym")):
             add("snep-srv:%d:%d" % (i, miu), "snep_serve", lens=group, miu_s2c=miu, max_len=ml)
-    CL = [[], [0], [1], [5], [6], [7], [6, 1], [6, 0], [8, 2], [6, 2, 2]]
+    CL = [[], [0], [1], [5], [6], [7], [6, 1], [6, 0], [8, 2], [6, 2, 2], [0, 6], [8, 0, 2],
+          [6, 2, 0]]
     if not quick:
         CL += [[9], [12], [6, 6], [7, 1, 1]]
     for op in ("put", "get"):
@@ -1228,10 +1412,23 @@ def partitions(tier):
                 add("snep-cli:%s:%s:%s" % (op, lname(lens), end),
                     "snep_client", op=op, lens=lens, end=end,
                     accept="sym" if op == "get" else "default")
-    HL = [[0], [1], [3], [2, 2], [0, 1, 0], [1, 1, 1]] + ([] if quick else [[4, 4], [1, 1, 1, 1]])
+    HL = [[0], [1], [3], [2, 2], [0, 1, 0], [1, 1, 1], [0, 0], [0, 2], [2, 0], [1, 0, 2]] + \
+        ([] if quick else [[4, 4], [1, 1, 1, 1], [2, 0, 0, 1]])
     for i, group in enumerate(chunks(HL, 3)):
         for miu in (128, 4):
             add("ho-srv:%d:%d" % (i, miu), "handover_serve", lens=group, miu_s2c=miu)
+    HC = [[], [0], [1], [3], [0, 2], [2, 0], [1, 0, 2], [0, 0], [2, 2]]
+    for op in ("octets", "records"):
+        for i, group in enumerate(chunks(HC, 3)):
+            for end in ("close", "silent"):
+                add("ho-cli:%s:%d:%s" % (op, i, end), "handover_client", op=op, lens=group,
+                    end=end)
+    # (7) application calls parked by the peer
+    for call, enders in (("send", ["DISC", "DM", "FRMR", "RR:1", "SYMM"]),
+                         ("recv", ["DISC", "DM", "FRMR", "SYMM"]),
+                         ("accept", ["SYMM"]),
+                         ("connect", ["DM", "CC", "SYMM"])):
+        add("app-blocked:%s" % call, "app_blocked", call=call, enders=enders)
     # (6) connect()
     for role in ("initiator", "target"):
         for shape in ("none", "raw:6", "ffm:0", "ffm:3", "ffm:4", "tlv:1", "tlv:2", "tlv:3",
@@ -1287,6 +1484,7 @@ MUST_REACH = ["pdu:decode-error", "pdu:decoded", "pdu:nested-agf-done",
               "handover:server-returned", "connect:llcp-link-ran", "connect:llcp-no-link",
               "connect:llcp-acm-link-ran", "connect:llcp-acm-no-link",
               "connect:card-returned",
+              "handover:client-returned", "app:came-back", "app:still-asleep-as-expected",
               "tt3:ignored", "tt3:answered", "tt3:dialog-ended",
               "tt3:block-list-answered", "tt3:block-list-ignored"]
 LIMITS = {"quick": dict(witness_cap=30), "thorough": dict(witness_cap=120)}
